@@ -202,15 +202,17 @@ func readUserDefinedColForRRCs(segKey string, rrcs []*sutils.RecordResultContain
 
 	// todo we should not be reading blockSummary here, let the segreader read it
 	var blockSummary []*structs.BlockSummary
-	if writer.IsSegKeyUnrotated(segKey) {
+	isUnrotated := writer.IsSegKeyUnrotated(segKey)
+	if isUnrotated {
 		verifhook.At("fetch.unrotated.checked", "qid", qid, "segkey", segKey)
 
 		blockSummary, err = writer.GetBlockSummaryForKey(segKey)
 		if err != nil {
-			log.Error(ErrGetBlockSummary)
-			return nil, err
+			// The segment was rotated after the check above; it is in the rotated metadata now.
+			isUnrotated = false
 		}
-	} else {
+	}
+	if !isUnrotated {
 		_, blockSummary, err = segmetadata.GetSearchInfoAndSummary(segKey)
 		if err != nil {
 			log.Error(ErrGetBlockSearchInfo)
